@@ -126,22 +126,8 @@ func checkSR(c SRCase) (r pbt.Result) {
 				// when the root lies in the lowest sliver of the bracket [0, S_prev/dt + I + L] (steep S(q) near 0)
 				avail := math.Max(prev, 0)/c.DT + I - E
 				bracket := avail + L
-				// my own root of q*dt + S(q) = water held, by 200 bisections on [0, bracket]
-				held := prev + (I+L-E)*c.DT
-				lo, hi := 0.0, bracket
-				for it := 0; it < 200; it++ {
-					mid := 0.5 * (lo + hi)
-					if mid*c.DT+c.sOfQ(mid)-held > 0 {
-						hi = mid
-					} else {
-						lo = mid
-					}
-				}
-				qStar := hi
-				// the solver stops after 20 iterations or when its trial points are within 1e-8 m^3/s of each other;
-				// neither guarantees the tolerance where the residual is steeper than tolerance / step at the root
-				slope := c.DT + c.K*c.M*math.Pow(qStar, c.M-1)
-				if c.M < 1 && (slope*convergenceLimit > massBalanceLimit || slope*bracket/(1<<20) > massBalanceLimit) {
+				qStar := 0.0
+				if simref.StorageRoutingSolverCanMiss(c.K, c.M, c.Dead, c.DT, prev, I, L, E) {
 					hitK6 = true
 				} else if L > 0 && math.Abs(Q[t]-avail) <= 1e-9*(1+avail) {
 					// Known finding K10 (storage-routing-drained-lateral): when the whole content of the reach leaves in
